@@ -251,7 +251,7 @@ BinOp(op, x, y) ==
       [] op \in {"==", "!="} ->
             \* structural equality recurses without a cycle guard: two DISTINCT self-containing containers never finish
             IF x.st = "self" /\ y.st = "self" /\ x.k = y.k THEN Trig("equality-of-distinct-self-containing-containers") ELSE OkR
-      [] op \in {"and", "or"} -> OkR
+      [] op \in {"&&", "||"} -> OkR
 UnOp(op, x) == IF op = "!" \/ IsNum(x) THEN OkR ELSE Err("TypeError", <<"Unary operand must be a number.">>)
 
 SeqLen(v) == IF v.k = "str" THEN Len(v.bytes) ELSE Len(v.es)
@@ -294,7 +294,7 @@ Cases ==
       [] Form = "setprop" -> {C("setprop", "x", <<r, a>>) : r \in Pool, a \in Small}
       [] Form = "call" -> {C("call", "", <<f>>) : f \in Pool} \cup {C("call", "", <<f, a>>) : f \in Pool, a \in Pool}
                           \cup {C("call", "", <<f, a, b>>) : f \in Pool, a \in Small, b \in Small} \cup {C("call", "", <<f, a, a, a>>) : f \in Pool, a \in Small}
-      [] Form = "binop" -> {C("binop", op, <<x, y>>) : op \in NumOps \cup {"+", "==", "!=", "and", "or"}, x \in Rep \cup Nums, y \in Rep \cup Nums}
+      [] Form = "binop" -> {C("binop", op, <<x, y>>) : op \in NumOps \cup {"+", "==", "!=", "&&", "||"}, x \in Rep \cup Nums, y \in Rep \cup Nums}
       [] Form = "unop" -> {C("unop", op, <<x>>) : op \in {"-", "~", "!"}, x \in Pool}
       [] Form = "index" -> {C("index", "", <<x, i>>) : x \in Pool, i \in Pool}
       [] Form = "setindex" -> {C("setindex", "", <<x, i, a>>) : x \in Pool, i \in Pool, a \in {ById("n1")}}
